@@ -105,12 +105,100 @@ class WindowSpec:
     window: Any  # self._window_s / self.window_s
 
 
+_HELPER_INFO: dict[str, Any] = {}
+
+
+def helper_prune_info(fi: Any) -> dict | None:
+    """shape of a prune helper that did not exist when the rules were written (a function or a method of the window
+    itself), verified on its own paths: which parameter is the pruned container, and where the time comes from -
+    {'container': param | 'self', 'cutoff': param}  for  `while X and X[0] <= cutoff`  or
+    {'container': ..., 'now': param, 'window': param}  for  `while X and X[0] <= now - window`"""
+    from ..ctx import engine
+    from ..model import program
+    from ..paths import looks_like_prune
+
+    if fi.qual in _HELPER_INFO:
+        return _HELPER_INFO[fi.qual]
+    _HELPER_INFO[fi.qual] = None
+    if not looks_like_prune(fi):
+        return None
+    prog = program()
+    E = engine(prog)
+    paths = E.paths(fi)
+    iters = [p for p in paths if p.exit[0] == "loop"]
+    others = [p for p in paths if p.exit[0] != "loop"]
+    if len(iters) != 1 or any(p.exit[0] != "return" or [e for e in p.events if e.kind in ("call", "store", "await") and not (e.kind == "call" and e.pure)] for p in others):
+        return None
+    p = iters[0]
+    conds = [(a, pol) for a, pol, _ in p.conds]
+    pops = [e for e in p.events if e.kind == "call" and not e.pure]
+    if len(pops) != 1 or not is_method(pops[0], "popleft") or len(conds) != 2:
+        return None
+    X = pops[0].recv
+    if not (isinstance(X, tuple) and X[0] == "param"):
+        return None
+    first = ("sub", X, ("const", 0))
+    truthy = any((a == X and pol) or (a == ("cmp", "<", ("const", 0), ("pure", "len", (X,), ())) and pol) for a, pol in conds)
+    info = None
+    for a, pol in conds:
+        nf = norm_less(a, pol, integer=False) if a[0] == "cmp" and a[1] == "<" else None
+        if nf is None:
+            continue
+        rel, terms, c = nf
+        td = dict(terms)
+        if rel != ">=0" or c != 0 or td.get(first) != -1 or not all(isinstance(k, tuple) and k[0] in ("param", "sub") for k in td):
+            continue
+        rest = {k: v for k, v in td.items() if k != first}
+        plus = [k for k, v in rest.items() if v == 1 and k[0] == "param"]
+        minus = [k for k, v in rest.items() if v == -1 and k[0] == "param"]
+        if len(rest) == 1 and len(plus) == 1:
+            info = {"cutoff": plus[0][1]}
+        elif len(rest) == 2 and len(plus) == 1 and len(minus) == 1:
+            info = {"now": plus[0][1], "window": minus[0][1]}
+    if not truthy or info is None:
+        return None
+    first_param = fi.positional_params()[0] if fi.positional_params() else None
+    info["container"] = "self" if (fi.is_method and not fi.is_staticmethod and X[1] == first_param) else X[1]
+    _HELPER_INFO[fi.qual] = info
+    return info
+
+
+def _helper_prune(e: PEvent, spec: "WindowSpec") -> tuple[Any, Any] | None:
+    """(container, now) of a call of a verified new prune helper, in the caller's terms"""
+    from ..paths import linear
+
+    if len(e.targets) != 1 or e.targets[0].kind != "repo" or e.targets[0].func is None:
+        return None
+    info = helper_prune_info(e.targets[0].func)
+    if info is None:
+        return None
+    X = e.recv if info["container"] == "self" else e.kwargs.get(info["container"])
+    if X is None:
+        return None
+    if "cutoff" in info:
+        t = e.kwargs.get(info["cutoff"])
+        lin = linear(t) if t is not None else None
+        if lin is None or lin[0] != 0:
+            return None
+        td = dict(lin[1])
+        if td.get(spec.window) != -1 or len(td) != 2:
+            return None
+        (now,) = [k for k in td if k != spec.window]
+        return (X, now) if td[now] == 1 else None
+    if e.kwargs.get(info["window"]) != spec.window:
+        return None
+    return X, e.kwargs.get(info["now"])
+
+
 def prunes(p: SymPath, spec: WindowSpec, idioms: dict[int, LoopIdiom], top_cfg: Any) -> list[Prune]:
     out: list[Prune] = []
     seen: set[int] = set()
     for i, it in enumerate(p.items):
         if it[0] == "ev" and it[1].kind == "call" and it[1].is_repo(spec.helper):
             out.append(Prune(i, spec.container(it[1]), spec.now(it[1]), "helper", it[1]))
+        elif it[0] == "ev" and it[1].kind == "call" and not it[1].pure and _helper_prune(it[1], spec) is not None:
+            X, now = _helper_prune(it[1], spec)
+            out.append(Prune(i, X, now, "helper", it[1]))
         else:
             h = _loop_of(it, top_cfg)
             if h is not None and h not in seen and h in idioms and idioms[h].problem is None and idioms[h].container is not None:
